@@ -20,15 +20,12 @@ PROP_RULE = ("a case is (dataset, SELECT text); datasets: default graph + 0-3 na
              "(dataset, syntax tree).")
 
 REQ = ["KV.Sparql.Base", "KV.Sparql.Syntax", "KV.Sparql.Algebra", "KV.Sparql.Engine", "KV.Sparql.Run"]
-CLASS_CODE = {1: "subselect-in-graph-var", 2: "undef-filter-sibling", 3: "bind-target-sibling", 4: "not-of-error", 5: "bind-arg-unbound"}
+CLASS_CODE = {1: "subselect-in-graph-var", 2: "undef-filter-sibling"}
 PRE = "Open Scope string_scope."
 
 FINDINGS = {
     "subselect-in-graph-var": "C01-subselect-in-graph-var",
     "undef-filter-sibling": "C01-undef-filter-sibling",
-    "bind-target-sibling": "C01-bind-target-sibling",
-    "not-of-error": "C01-not-of-error",
-    "bind-arg-unbound": "C01-bind-arg-unbound",
 }
 
 
@@ -71,6 +68,18 @@ def gen_cases(ctx, n, noise=True):
             # GRAPH operators with different graph terms over bodies without triple patterns (graph-existence patterns)
             ds, q = L.gen_scanfree_graphs(rng)
             ops["scanfree_graph_family"] = ops.get("scanfree_graph_family", 0) + 1
+            cases.append({"ds": ds, "q": q, "query": L.print_query(q, rng, noise), "pyspec": L.spec_answer(ds, q)})
+            continue
+        if rng.random() < 0.05:
+            # DISTINCT + ORDER BY over a strict subset of the projection, duplicates interleaved within the ties (seeded C02r2/3)
+            ds, q = L.gen_distinct_order(rng)
+            ops["distinct_order_subset_family"] = ops.get("distinct_order_subset_family", 0) + 1
+            cases.append({"ds": ds, "q": q, "query": L.print_query(q, rng, noise), "pyspec": L.spec_answer(ds, q)})
+            continue
+        if rng.random() < 0.05:
+            # the shapes of the repaired BIND findings (target bound by a sibling, argument unbound in some rows)
+            ds, q = L.gen_bind_sibling(rng)
+            ops["bind_sibling_family"] = ops.get("bind_sibling_family", 0) + 1
             cases.append({"ds": ds, "q": q, "query": L.print_query(q, rng, noise), "pyspec": L.spec_answer(ds, q)})
             continue
         ds = L.gen_dataset(rng)
@@ -125,8 +134,6 @@ def evaluate(ctx, binpath, cases, stream, coq=True, known_ok=None, env=None):
             if c["syntactic"] and not cagree:
                 ctx.broken("correspondence", stream + ":classifier", "a case satisfies the syntactic hypotheses of C01_pattern_syntactic but not `agree` (contradicts C01_agree_syntactic)",
                            {"q": c["q"], "query": c["query"]})
-            if cnoerr and (set(ccodes) & {4, 5}):
-                ctx.broken("correspondence", stream + ":classifier", "noerr holds for a query the classifier puts in class 4/5", {"q": c["q"], "query": c["query"]})
             c["coq_classes"] = (set(CLASS_CODE[k] for k in ccodes), cws)
             c["in_theorem"] = bool(cfrag and cagree)
             cv = (None, cv[3])
@@ -167,7 +174,7 @@ def evaluate(ctx, binpath, cases, stream, coq=True, known_ok=None, env=None):
                 st["inside_hypotheses_of_C01_pattern_syntactic"] = st.get("inside_hypotheses_of_C01_pattern_syntactic", 0) + 1
             if c.get("in_theorem"):
                 st["inside_hypotheses_of_C01_pattern"] = st.get("inside_hypotheses_of_C01_pattern", 0) + 1
-                if classes & {"subselect-in-graph-var", "undef-filter-sibling", "bind-target-sibling"}:
+                if classes & {"subselect-in-graph-var", "undef-filter-sibling"}:
                     ctx.broken("correspondence", stream + ":classifier", "a case inside a scoping class satisfies the hypotheses of C01_pattern",
                                {"q": q, "query": c["query"], "classes": sorted(classes)})
         if not wellscoped:
